@@ -320,7 +320,7 @@ func eachStress(extraSizes []int) func(yield func(*StressCase) bool) {
 }
 
 func TestC03(t *testing.T) {
-	R.Rule = "well-typed programs (type-directed construction, with harness-registered strict / lazy / polymorphic functions, function-typed values called dynamically, poisoned operands) over generated conforming environments, run on VM/switch, VM/call-threaded, closure and interpreter: equal values (numbers bit-exact), all fail or none, identical host-function call traces; the same through Expr.Parse + Expr.CompileExpr on one tree compiled before and afterwards against sibling types (VM, closure, interpreter); stress classes beyond 42 stack slots / 255 operands; non-trivial = uses a construct the VM treats specially (intrinsic opcode, conditional jump, thunk, nested thunk, dynamic call, literal with >1 member, duplicate map key, >255 constants)"
+	R.Rule = "well-typed programs (type-directed construction, with harness-registered strict / lazy / polymorphic functions, function-typed values called dynamically, poisoned operands) over generated conforming environments, run on VM/switch, VM/call-threaded, closure and interpreter: equal values (numbers bit-exact), all fail or none, identical host-function call traces; the same through Expr.Parse + Expr.CompileExpr on one tree compiled before and afterwards against sibling types (VM, closure, interpreter); the same programs on engines where host functions were registered, after the first use, under the name and parameter types of monomorphic built-ins (abs, max, min, -, *): whichever function a call means, all back ends agree; stress classes beyond 42 stack slots / 255 operands; non-trivial = uses a construct the VM treats specially (intrinsic opcode, conditional jump, thunk, nested thunk, dynamic call, literal with >1 member, duplicate map key, >255 constants)"
 	R.Assume = []string{"differential oracle only; agreement of four wrong back ends is C04's subject"}
 	reportKnown(t, "C03")
 	runRegress(t, "C03")
@@ -330,6 +330,7 @@ func TestC03(t *testing.T) {
 	}
 	c03stress.Each(t, "stress-classes", eachStress(big))
 	c03.Run(t, budget(8000, 480000))
+	c03override.Run(t, budget(2500, 120000))
 	c03src.Run(t, budget(12000, 640000))
 }
 
@@ -425,6 +426,64 @@ func checkSrcDiff(c *SrcCase) *Outcome {
 }
 
 var c03src = Register(&Prop[SrcCase]{ID: "C03", Name: "source-strings", Gen: genSrcCase, Check: checkSrcDiff})
+
+// ---- host functions that take the place of a built-in: same name and parameter types as a
+// monomorphic built-in (abs, max, min, binary - and *), registered after the engine's first
+// use; whichever function a call then means, it is the same one on every back end (values,
+// failures and the host-call trace coincide)
+
+var builtinOverrides = []ref.FunSig{
+	{Name: "abs", Params: []*m.Type{m.Num}, Ret: m.Num, Impl: "hpost"},
+	{Name: "max", Params: []*m.Type{m.Num, m.Num}, Ret: m.Num, Impl: "hsub"},
+	{Name: "min", Params: []*m.Type{m.Num, m.Num}, Ret: m.Num, Impl: "hsub"},
+	{Name: "-", Params: []*m.Type{m.Num, m.Num}, Ret: m.Num, Impl: "hsub"},
+	{Name: "*", Params: []*m.Type{m.Num, m.Num}, Ret: m.Num, Impl: "hsub"},
+	{Name: "-", Params: []*m.Type{m.Num}, Ret: m.Num, Impl: "hpost"},
+}
+
+func checkOverride(c *ProgCase) *Outcome {
+	r := refRun(c)
+	if r.RefErr != nil {
+		return skip("harness:reference-rejects-generated-program")
+	}
+	r.Runs = nil
+	for _, be := range run.AllBackends {
+		en := run.NewEngine(be, c.Extra)
+		if _, err := en.E.Compile("1", nil); err != nil {
+			return bad("harness: first use of the engine failed: %v", err)
+		}
+		for _, f := range builtinOverrides {
+			en.E.RegisterFun(run.MakeHarnessFun(f, en.Tr))
+		}
+		o := en.RunSrc(r.Src, c.Env, c.Vals)
+		b := &BackendRun{O: o}
+		if o.Compiled() && !o.Failed() {
+			b.Val, b.Probs = run.FromYaeVal(o.Val, r.RefType)
+		}
+		r.Runs = append(r.Runs, b)
+	}
+	err, fam := compareBackends(c, r)
+	if err != nil {
+		return &Outcome{Err: fmt.Errorf("with host functions registered over abs / max / min / - / * after the engine's first use: %v", err)}
+	}
+	if fam != "" {
+		return skip(fam)
+	}
+	uses := false
+	r.Core.Walk(func(e *m.Expr) {
+		if e.K == "call" {
+			switch e.Name {
+			case "abs", "max", "min", "-", "*":
+				uses = true
+			}
+		}
+	})
+	return ok(uses, fmt.Sprintf("calls-an-overridden-built-in:%v", uses))
+}
+
+// (no lazy function VALUES here: calling one through a non-identifier callee is the open finding F21)
+var c03overrideOpt = gen.ProgOpt{Fuel: 4, Partial: true, Sugar: true, NonFinite: true, Maybe: true, Times: true, Harness: true, Poison: true}
+var c03override = Register(&Prop[ProgCase]{ID: "C03", Name: "overridden-built-ins", Gen: genProgCase(c03overrideOpt, run.StdHarness), Check: checkOverride})
 
 // twoStepRoute: the public two-step route - Expr.Parse once, then Expr.CompileExpr on that one
 // tree: first against sibling typing environments (verdict ignored), then against the real one,
